@@ -86,11 +86,13 @@ def encObj : PObj → String
   | .poly ts => "poly " ++ encPoly ts
   | .plist ps => "plist " ++ encRows ps
   | .num c => "num " ++ encCx c
+  | .zero n => "zero " ++ toString n
 def decObj (kind : String) (args : List String) : Option PObj :=
   match kind, args with
   | "pauli", [a] => (decPauli a).map .pauli
   | "mono", [a, c] => do let a ← decPauli a; let c ← decCx c; pure (.mono a c)
   | "poly", [p] => (decPoly p).map .poly
+  | "zero", [n] => n.toNat?.map .zero
   | "plist", [p] => (decRows p).map .plist
   | "num", [c] => (decCx c).map .num
   | _, _ => none
@@ -359,6 +361,12 @@ def circOp (s : Sess) (w : List String) : Option (Sess × String) :=
       match c.compileLayersOnly with
       | .ok c' => pure (s.setC id c', "ok")
       | .error e => pure (s, encErr e)
+  | [id, "rcc", kind, n, depth] => do
+      let n ← n.toNat?; let depth ← depth.toNat?
+      let r := if kind == "brickwall" then brickwallRcc n depth else if kind == "onsite" then onsiteRcc n else globalRcc n
+      match r with
+      | .ok c => pure (s.setC id c, "ok")
+      | .error e => pure (s, encErr e)
   | [id, "layers"] => do
       let c ← s.getC id
       pure (s, "|".intercalate (c.layers.map encLayer))
@@ -428,7 +436,8 @@ def regOp (s : Sess) (w : List String) : Option (Sess × String) :=
   | ["reduce", dst, a, tn, td] => do
       let a ← s.getR a; let tn ← tn.toNat?; let td ← td.toNat?
       match a with
-      | .poly ts => pure (fin dst (.ok (.poly (reduce ts tn td))))
+      | .poly ts => pure (fin dst (.ok (normP a.N (reduce ts tn td))))
+      | .zero n => pure (fin dst (.ok (.zero n)))
       | _ => none
   | _ => none
 
